@@ -414,7 +414,10 @@ def kernelRun : Nat → KS → KS × List Cqe
       | .poll => ({ ks with armed := false, sockq := ks.sockq.drop ks.chunk }, [⟨.ok c.length, false, some c⟩])
     else if ks.eof then
       match ks.drv with
-      | .uring => ({ ks with armed := false }, [⟨.ok 0, false, none⟩])
+      -- a buffer is selected before the receive is attempted, also for the final 0-byte result
+      | .uring =>
+        if ks.free > 0 then ({ ks with armed := false }, [⟨.ok 0, false, none⟩])
+        else ({ ks with armed := false }, [⟨.err .busy, false, none⟩])
       | .poll => ({ ks with armed := false }, [⟨.ok 0, false, some []⟩])
     else (ks, [])
 
